@@ -17,7 +17,7 @@ def sensitive_indexes(rec, cfg):
     return pred
 
 
-def vary(lf, v, rng, k):
+def vary(lf, v, rng, k, cfg=None):
     """New contents for a sensitive leaf, inside its lexical class.  v=1: every string the same text (equal secrets);
     v>=2: random lengths (0 .. 20 kB), metacharacters, notations."""
     t = lf.node[0]
@@ -30,6 +30,16 @@ def vary(lf, v, rng, k):
         under = path[-1] if path else ""
         if v == 1:
             return ('str', "Zsame")
+        if v in (3, 4) and under in ("$date", "$oid", "base64"):
+            v = 2
+        if v == 3:
+            # the secret equals a name that occurs in the same line / run: a field name, the collection, the database, a command word
+            return ('str', rng.choice(["uf1", "uf2", "uf3", "collZn", "dbZn", "dbZn.collZn", "find", "filter", "$db"[1:], "ns"]))
+        if v == 4:
+            # the secret is spelled like something the tool itself emits: a pseudonym, a placeholder of another class, the replacement text
+            repl = cfg.repl() if cfg is not None else "REDACTED"
+            return ('str', rng.choice([repl + "_0123456789abcdef", repl + "_%016x" % rng.getrandbits(64), repl + "_0123456789abcdef." + repl + "_fedcba9876543210",
+                                       repl, repl + "-x", "1970-01-01T00:00:00.000Z", "0" * 24, "AAAAAAAAAAAAAAAAAAA=", "255.255.255.255:65535"]))
         if under in ("$date", "$oid", "base64"):
             choice = rng.randint(0, 4)
             if choice == 0:
@@ -98,7 +108,7 @@ def process_chunk_c02(args):
                             if ch in REDACTED and lf.lab in ("user", "any") and l3.in_zone(lf.path):
                                 cnt += 1
                                 if v > 0:
-                                    t2 = set_at(t2, lf.path, vary(lf, v, rng, big_used))
+                                    t2 = set_at(t2, lf.path, vary(lf, v, rng, big_used, cfg))
                                     big_used += 1
                     if v == 0:
                         nsens.append(cnt)
@@ -122,7 +132,7 @@ def process_chunk_c02(args):
                             if ch in REDACTED and lf.lab in ("user", "any") and l3.in_zone(lf.path):
                                 sig_path = lf.path[1] + "/" + l3.abstract_path(lf.path[2:])
                         sig = "outputs differ when only sensitive literals differ (%s variant) near %s flags=%s" % (
-                            "all-equal" if v == 1 else "random", sig_path, " ".join(cfg.flags()))
+                            {1: "all-equal", 3: "secret equals a name of the line", 4: "secret spelled like a pseudonym / placeholder"}.get(v, "random"), sig_path, " ".join(cfg.flags()))
                         rep = {"cfg": cfg.desc(), "input_a": inputs[0][i][:6000], "input_b": inputs[v][i][:6000],
                                "output_a": (o0 or "")[:6000], "output_b": (ov or "")[:6000], "abstract_case": rec.get("in")}
                         res["violations"].append((sig, rep if len(res["violations"]) < 30 else None))
@@ -150,7 +160,7 @@ def run(tier):
     v = common.Verdict(PID, tier, "model_checking")
     b = common.build(need_inproc=False)
     cs = cfgs(tier)
-    rp = l3.Replay(b, v, cs, "checks.c02:judge", variants=3 if tier == "quick" else 8, chunk=1200, worker="checks.c02:process_chunk_c02")
+    rp = l3.Replay(b, v, cs, "checks.c02:judge", variants=5 if tier == "quick" else 9, chunk=1200, worker="checks.c02:process_chunk_c02")
     dump = l3.grammar_dump()
     seeds, nseeds = l3.grammar_seeds(dump)
     gm = {"GMDepth": "5", "GMWide": "1", "GMMaxFld": "1", "GMMaxArr": "1", "GMTail": "1", "GMSeeds": "<< >>",
@@ -171,7 +181,8 @@ def run(tier):
     v.cov.update({"states": states, "transitions": trans, "traces_validated_against_impl": v.cov["evaluations"], "exhaustive": True,
                   "abstract_cases": rp.records, "flag_sets": [c.desc() for c in cs], "variants_per_case": rp.opts["variants"],
                   "rule": "each abstract case with at least one sensitive literal is concretised k times: variant 0 distinct ASCII contents, variant 1 "
-                          "all sensitive strings equal (secrets equal across classes), variants >= 2 random contents of length 0..20 kB with JSON "
+                          "all sensitive strings equal (secrets equal across classes), variant 3 secrets equal to a field / collection / database name of the line, "
+                          "variant 4 secrets spelled like a pseudonym, a placeholder of another class or the replacement text, the others random contents of length 0..20 kB with JSON "
                           "metacharacters / numbers of other magnitude and notation / both booleans, classes preserved; everything else byte-identical; "
                           "the k outputs are compared as bytes; distinct by (predicted outcome pattern, flag set)",
                   "trusted_base": ["TLC", "lib/l3.py concretiser", "spec prediction is used only to choose WHICH literals are varied"]})
